@@ -42,6 +42,14 @@ func (P) Monitor(c *hx.CaseRun) []hx.Failure {
 			fs = append(fs, hx.Failure{Monitor: "tampered_tx_rejected", Class: "tampered-admitted:" + t, Site: "types/tx_utxo.go:CheckBasic",
 				Msg: "a confidential transaction altered after construction (" + t + ") was admitted: " + op})
 		}
+		if d, ok := hx.Arg(toks_, "gpd"); ok && d != "0" && strings.Contains(ans, "admit=ok") {
+			fs = append(fs, hx.Failure{Monitor: "fees_debited_equal_fees_credited", Class: "off-par-gas-price-admitted", Site: "types/transaction.go:IllegalGasLimitOrGasPrice",
+				Msg: "a transaction whose gas price is not the chain's fixed price was admitted (the sender pays gas*price, the collector is credited gas*par): " + op})
+		}
+		if _, ok := hx.Arg(toks_, "hi"); ok && (strings.Contains(ans, "admit=ok") || strings.HasPrefix(ans, "id=")) {
+			fs = append(fs, hx.Failure{Monitor: "amount_range_enforced", Class: "oversize-amount-accepted", Site: "types/tx_utxo.go:BigInt2Hash",
+				Msg: "an account-side amount of 2^64 units or more was turned into a commitment scalar (it is reduced modulo the scalar's byte width while the full amount is credited): " + op + " -> " + ans})
+		}
 		if strings.HasPrefix(ans, "panic") || strings.Contains(ans, "=panic") {
 			fs = append(fs, hx.Failure{Monitor: "no_panic", Class: "panic:" + ans, Site: "app", Msg: op + " -> " + ans})
 		}
@@ -93,18 +101,19 @@ func (P) Generate(g *hx.Gen) {
 	n := g.Pick(200, 1200)
 	for k := 0; k < n; k++ {
 		trie := g.Rng.Intn(2)
-		ops := []string{hx.CaseOp(), fmt.Sprintf("chain trie=%d accts=3 wallets=2 seed=%d", trie, 1+g.Rng.Intn(1000)), "bal"}
+		ops := []string{hx.CaseOp(), fmt.Sprintf("chain trie=%d accts=3 wallets=2 seed=%d code=1", trie, 1+g.Rng.Intn(1000)), "bal"}
 		nonce := []int{0, 0, 0}
 		owned := []int{0, 0} // number of outputs each wallet has ever received (index space for in=)
 		blocks := 3 + g.Rng.Intn(g.Pick(4, 6))
 		conf := 0
 		txBlocks := 0
+		calls, priced := 0, 0
 		for b := 0; b < blocks; b++ {
 			ntx := g.Rng.Intn(5)
 			pendingOuts := []int{0, 0}
 			for t := 0; t < ntx; t++ {
 				from := g.Rng.Intn(3)
-				switch r := g.Rng.Intn(16); {
+				switch r := g.Rng.Intn(19); {
 				case r < 3:
 					ops = append(ops, fmt.Sprintf("xfer from=%d to=%d amount=%d nonce=%d", from, g.Rng.Intn(3), 1+g.Rng.Intn(100000), nonce[from]))
 					nonce[from]++
@@ -147,8 +156,39 @@ func (P) Generate(g *hx.Gen) {
 					if tot := strings.Count(strings.Join(ops, "\n"), "\nxfer") + conf; tot > 0 {
 						ops = append(ops, fmt.Sprintf("replay id=%d", g.Rng.Intn(tot)))
 					}
-				default:
+				case r == 15 && g.Rng.Intn(2) == 0:
 					ops = append(ops, "nonces")
+				default:
+					switch g.Rng.Intn(6) {
+					case 0, 1: // contract call that succeeds (storage writes, log) or reverts (c=255)
+						c := g.Rng.Intn(40)
+						if g.Rng.Intn(3) == 0 {
+							c = 255
+						}
+						ops = append(ops, fmt.Sprintf("call from=%d c=%d nonce=%d", from, c, nonce[from]))
+						nonce[from]++
+						calls++
+					case 2: // a gas price other than the fixed one must be refused (sender would pay gas*price, the collector get gas*par)
+						d := []int64{1, -1, 100000000000, 200000000000, -100000000000}[g.Rng.Intn(5)]
+						if g.Rng.Intn(2) == 0 {
+							ops = append(ops, fmt.Sprintf("xfer from=%d to=%d amount=%d nonce=%d gpd=%d", from, g.Rng.Intn(3), 1+g.Rng.Intn(1000), nonce[from], d))
+						} else {
+							ops = append(ops, fmt.Sprintf("call from=%d c=%d nonce=%d gpd=%d", from, g.Rng.Intn(40), nonce[from], d))
+						}
+						priced++
+					case 3: // account-side amount beyond the 8 bytes of units the amount->scalar conversion supports
+						w := g.Rng.Intn(2)
+						if owned[w] > 0 {
+							ops = append(ops, fmt.Sprintf("ua w=%d in=%d to=%d amount=%d hi=%d claim=300000000000", w, g.Rng.Intn(owned[w]), g.Rng.Intn(3), 1+g.Rng.Intn(100000),
+								[]int{64, 65, 71, 72, 73, 80, 100}[g.Rng.Intn(7)]))
+						}
+					default: // spend a whole output to an account: a transaction without any confidential output
+						w := g.Rng.Intn(2)
+						if owned[w] > 0 {
+							ops = append(ops, fmt.Sprintf("ua w=%d in=%d to=%d all=1", w, g.Rng.Intn(owned[w]), g.Rng.Intn(3)))
+							conf++
+						}
+					}
 				}
 			}
 			ops = append(ops, "block")
@@ -160,23 +200,47 @@ func (P) Generate(g *hx.Gen) {
 			ops = append(ops, "bal")
 		}
 		g.Count(fmt.Sprintf("mode:trie=%d", trie))
+		if calls > 0 {
+			g.Count("with-contract-calls")
+		}
+		if priced > 0 {
+			g.Count("with-off-par-gas-price")
+		}
 		g.Case(fmt.Sprintf("chain trie=%d blocks=%d", trie, blocks), WithReceipts(ops), txBlocks >= 2 && conf > 0)
 	}
 }
 
 // WithReceipts dry-runs the ops on a private executor and inserts after every block the `receipts` op carrying the gas
-// used and status the implementation recorded (the ledger model takes them as given and checks its own prediction).
+// used and status the implementation recorded (the ledger model takes them as given and checks its own prediction); contract
+// calls are annotated with the gas the dry run charged them (used=, st=): the ledger model does not execute contracts, it
+// takes the metered gas as an input and predicts balances, nonces and fees from it.
 func WithReceipts(ops []string) []string {
 	var ex appsim.ChainExec
 	var out []string
+	opOf := map[string]int{} // tx id -> index in out of the op that built it
 	for _, op := range ops {
 		ans := hx.SafeExec(execOf(&ex), op)
 		out = append(out, op)
+		at := hx.Tokens(ans)
+		if id, ok := hx.Arg(at, "id"); ok && strings.HasPrefix(op, "call") {
+			opOf[id] = len(out) - 1
+		}
 		if (strings.HasPrefix(op, "block") || strings.HasPrefix(op, "forceblock")) && strings.HasPrefix(ans, "h=") {
-			h, _ := hx.Arg(hx.Tokens(ans), "h")
+			h, _ := hx.Arg(at, "h")
 			var hh uint64
 			fmt.Sscan(h, &hh)
-			out = append(out, ex.ReceiptOp(hh))
+			rop := ex.ReceiptOp(hh)
+			out = append(out, rop)
+			ids, _ := hx.Arg(at, "txs")
+			rt := hx.Tokens(rop)
+			gas, _ := hx.Arg(rt, "gas")
+			st, _ := hx.Arg(rt, "st")
+			gs, ss := strings.Split(gas, ","), strings.Split(st, ",")
+			for i, id := range strings.Split(ids, ",") {
+				if k, ok := opOf[id]; ok && i < len(gs) && i < len(ss) && !strings.Contains(out[k], " used=") {
+					out[k] += fmt.Sprintf(" used=%s st=%s", gs[i], ss[i])
+				}
+			}
 		}
 	}
 	hx.SafeExec(execOf(&ex), "case")
